@@ -110,6 +110,15 @@ def gen_spec(rng, thorough=False, force=None):
 		if rng.random() < force.get('pcostfn', .12):
 			nodes[str(l)]['pfn'] = [rng.choice(['0', '1']), rng.choice(['0', '-1', '-3']), rng.choice(['0', '1/2', '1'])]
 	spec = {'kind': kind, 'labels': labels, 'edges': edges, 'nodes': nodes, 'T': T}
+	if force.get('prandom'):
+		# random inputs: Poisson / discrete-uniform / rounded-normal demand sources, Markov disruption processes, and an explicit seed (0 is a legal seed)
+		for nd in nodes.values():
+			if nd['demand'] is not None and rng.random() < force['prandom']:
+				nd['rdemand'] = rng.choice([{'type': 'P', 'mean': rng.choice([2, 5, 9])}, {'type': 'UD', 'lo': rng.randint(0, 3), 'hi': rng.randint(4, 12)},
+											{'type': 'N', 'mean': rng.choice([4, 10]), 'sd': rng.choice([1, 3])}])
+			if nd['dis'] is not None and rng.random() < force['prandom']:
+				nd['dis']['markov'] = [rng.choice([0.1, 0.3, 0.5]), rng.choice([0.3, 0.6])]
+		spec['seed'] = rng.choice([0, 0, 1, 7, 12345, 2 ** 31])
 	if force.get('label0') and 0 not in labels:
 		# give index 0 to a node that is somebody's customer (0 is a legal index, and falsy)
 		cust = [l for l in labels if has_pred[l]]
@@ -126,11 +135,16 @@ def spec_flags(spec):
 	fl = ['kind:' + spec['kind'], 'n=%d' % len(spec['labels'])]
 	if 0 in spec['labels']:
 		fl.append('has-node-index-0')
+	if 'seed' in spec:
+		fl.append('rand_seed=%s' % spec['seed'])
 	for l, nd in spec['nodes'].items():
 		fl.append('policy:' + nd['policy']['t'])
 		fl.append('slt=%d' % nd['slt']); fl.append('olt=%d' % nd['olt'])
 		if nd['dis']:
 			fl.append('dis:' + nd['dis']['type'])
+			if nd['dis'].get('markov'): fl.append('dis:markov')
+		if nd.get('rdemand'):
+			fl.append('random-demand:' + nd['rdemand']['type'])
 		if nd['cap'] not in (None, '0'):
 			fl.append('capacity')
 		if nd.get('hfn'):
@@ -178,6 +192,11 @@ def build_py(spec, relabel=None):
 			n.inventory_policy = Policy(type='FQ', order_quantity=num(pol['a']), node=n)
 		if nd['demand'] is not None:
 			n.demand_source = DemandSource(type='D', demand_list=[num(x) for x in nd['demand']])
+			rd = nd.get('rdemand')
+			if rd:          # a random demand source (integer-valued, so the exact regime still applies to the realised demands)
+				n.demand_source = DemandSource(type='P', mean=rd['mean']) if rd['type'] == 'P' else (
+					DemandSource(type='UD', lo=rd['lo'], hi=rd['hi']) if rd['type'] == 'UD' else
+					DemandSource(type='N', mean=rd['mean'], standard_deviation=rd['sd'], round_to_int=True))
 		if nd.get('hfn'):
 			n.local_holding_cost_function = (lambda cs: (lambda x: sum(c * x ** k for k, c in enumerate(cs))))([float(F(c)) for c in nd['hfn']])
 		if nd.get('pfn'):
@@ -185,6 +204,9 @@ def build_py(spec, relabel=None):
 		if nd['dis'] is not None:
 			n.disruption_process = DisruptionProcess(random_process_type='E', disruption_type=nd['dis']['type'],
 													 disruption_state_list=list(nd['dis']['list']))
+			if nd['dis'].get('markov'):
+				n.disruption_process = DisruptionProcess(random_process_type='M', disruption_type=nd['dis']['type'],
+														 disruption_probability=nd['dis']['markov'][0], recovery_probability=nd['dis']['markov'][1])
 		objs[l] = n
 		net.add_node(n)
 	for a, b in spec['edges']:
@@ -659,7 +681,32 @@ def oracle_C04(spec, tr, init):
 					bad.append('t=%d node%d: ordered %s during an order-pausing disruption' % (t, i, nd['oqfg']))
 				continue
 			if pol['t'] == 'EBS':
-				continue   # echelon position checked through the echelon/local equivalence stream
+				# documented echelon inventory position (node_state_vars.py docstrings): on-hand here and at / in transit to every downstream node,
+				# minus the backorders of the downstream-most nodes, plus everything on order, waiting as raw material or held at the door
+				if len(inE[i]) != 1:
+					continue
+				succ = lambda j: [edges[e][1] for e in outE[j] if edges[e][1] is not None]
+				desc = []; front = [i]
+				while front:
+					front = [m for j in front for m in succ(j) if m not in desc]
+					desc += list(dict.fromkeys(front))
+				eoh = pos_(prev['nodes'][i]['il'])
+				for d in desc:
+					eoh += pos_(prev['nodes'][d]['il'])
+					for e in inE[d]:
+						if edges[e][0] is not None and (edges[e][0] == i or edges[e][0] in desc):
+							eoh += sum(prev['edges'][e]['ispl'], F(0))
+				eil = eoh - sum((pos_(-prev['nodes'][d]['il']) for d in [i] + desc if not succ(d)), F(0))
+				e0 = inE[i][0]
+				demand = sum((st['edges'][e]['io'] for e in outE[i]), F(0))
+				ip = eil + prev['edges'][e0]['oo'] + prev['edges'][e0]['rm'] + prev['edges'][e0]['idi'] - demand
+				q = policy_qty(pol, ip)
+				cap = cfg['cap']
+				if cap is not None and F(cap) != 0:
+					q = min(q, F(cap))
+				if nd['oqfg'] != q:
+					bad.append('t=%d node%d: ordered %s but the echelon base-stock level %s and the echelon inventory position %s prescribe %s' % (t, i, nd['oqfg'], pol['a'], ip, q))
+				continue
 			if pol['t'] == 'FQ':
 				q = F(pol['a'])
 			else:
